@@ -237,8 +237,10 @@ func (c CharSet) mapHashFill(buf *bytes.Buffer) {
 	_ = binary.Write(buf, binary.LittleEndian, int32(len(c.ranges)))
 	_ = binary.Write(buf, binary.LittleEndian, int32(len(c.categories)))
 	for _, r := range c.ranges {
-		buf.WriteRune(r.First)
-		buf.WriteRune(r.Last)
+		// fixed-width, not UTF-8: WriteRune would turn every surrogate bound into U+FFFD and
+		// make classes that differ only there share one key
+		_ = binary.Write(buf, binary.LittleEndian, int32(r.First))
+		_ = binary.Write(buf, binary.LittleEndian, int32(r.Last))
 	}
 	for _, ct := range c.categories {
 		// write the length of the cat and indicate if it's negated
@@ -269,8 +271,10 @@ func NewCharSetRuntime(buf string) CharSet {
 	retVal.ranges = make([]SingleRange, lenRanges)
 	for i := 0; i < int(lenRanges); i++ {
 		r := SingleRange{}
-		r.First, _, _ = b.ReadRune()
-		r.Last, _, _ = b.ReadRune()
+		var first, last int32
+		_ = binary.Read(b, binary.LittleEndian, &first)
+		_ = binary.Read(b, binary.LittleEndian, &last)
+		r.First, r.Last = rune(first), rune(last)
 		retVal.ranges[i] = r
 	}
 
